@@ -55,11 +55,12 @@ Definition check_case (c : case) : nat :=
   end%nat.
 
 (* ---------- specification oracle: reference semantics vs what the implementation did ---------- *)
-From Verif Require Import Spec.
+From Verif Require Import Spec Depth DepthModel DepthSpec.
 
 (* 0 agrees | 11 spec accepts, implementation rejects | 12 spec: checked error, implementation accepts
    | 13 emitted statements differ from the lowered reference trace | 14 spec: checked error,
-   implementation fails with an internal exception | 18 fuel | 19 specification silent *)
+   implementation fails with an internal exception | 15 statements agree but the reported depth is not
+   the critical-path length of the reference trace | 18 fuel | 19 specification silent *)
 Definition spec_case (strict : bool) (c : case) : nat :=
   match spec_run strict (c_qasm2 c) (c_ext c) (c_prog c), c_unr c with
   | Err (EUnmodelled _), _ => 19
@@ -68,9 +69,9 @@ Definition spec_case (strict : bool) (c : case) : nat :=
   | Err EValidation, XValidation => 0
   | Err EValidation, XOk _ _ _ _ => 12
   | Err EValidation, XInternal => 14
-  | Ok tr, XOk stmts _ _ _ =>
+  | Ok tr, XOk stmts _ _ d =>
       match lower tr with
-      | Ok l => if flat_equiv_list l stmts then 0 else 13
+      | Ok l => if flat_equiv_list l stmts then (if Z.eqb (spec_depth tr) d then 0 else 15) else 13
       | Err _ => 19
       end
   | Ok _, _ => 11
